@@ -11,6 +11,7 @@ import Imeta.Props.C11
 import Imeta.Lemmas.XmpTotal
 import Imeta.Lemmas.ExifWalk
 import Imeta.Lemmas.BmffWalks
+import Imeta.Lemmas.QSelect
 namespace Imeta.C02
 open Imeta
 
@@ -107,5 +108,12 @@ theorem C02_exif_round_decreases (r rn : Exif.R) (h : Exif.Pay 0 r rn) (hlt : r.
 /-- non-vacuity: a fresh reader over 20 bytes meets the hypotheses of the loop theorem with the fuel it is given -/
 example : let r : Exif.R := { rest := List.replicate 20 0, po := 0, exifLength := 0, buffered := true }
     r.pos ≤ r.tags.length ∧ Exif.M r < Exif.fuelFor r.rest := by decide
+
+/-- perceptual hashes: the in-place quickselect that finds the median ends, for every array over a strict weak order and
+every k inside the range, within 2·(hi-low)+1 rounds (the model's 2n+2 are never used up) -/
+theorem C02_quickselect_terminates {α : Type} [LT α] [DecidableLT α] (sw : Hash.StrictWeak α) (k low hi fuel : Nat) (a : Array α)
+    (g : Hash.G k low hi a) (hf : 2 * (hi - low) + 1 < fuel) : ∃ a', Hash.qselLoop k fuel low hi a = .ok a' :=
+  let ⟨a', h, _⟩ := Hash.qsel_spec sw k fuel low hi a g (Or.inl hf)
+  ⟨a', h⟩
 
 end Imeta.C02
